@@ -560,11 +560,12 @@ func init() {
 	plan, run := sections(
 		section{"pairs", tiered(3000, 80000), c20Pairs},
 		section{"dedup", tiered(2500, 60000), c20Dedup},
+		concurrentSection("C20"),
 	)
 	core.Register(&core.Monitor{
 		ID: "C20", Level: "exploration", Plan: plan, Run: run,
 		Rule: "per registry type: a wire-originated record against its copy and variants {identical, TTL, owner case, embedded-name case, one RDATA field re-drawn (x3), class, APL IPv4 item vs the same address as IPv4-mapped IPv6 item}; oracle = model key (type, class, lower-cased owner wire, RDATA wire with embedded names lower-cased); " +
-			"symmetry, reflexivity, transitivity over the equal variants; Dedup against a stable first-occurrence filter keyed by text minus TTL with lower-cased owner, minimum TTL, with nil, fresh and reused scratch maps (later lists repeat records an earlier call kept); non-trivial = distinct (record, variant) pair / list with duplicates",
+			"symmetry, reflexivity, transitivity over the equal variants; Dedup against a stable first-occurrence filter keyed by text minus TTL with lower-cased owner, minimum TTL, with nil, fresh and reused scratch maps (later lists repeat records an earlier call kept); the same operations called from 8 goroutines at once give the results they give alone; non-trivial = distinct (record, variant) pair / list with duplicates",
 		MinObserved: []string{"triples", "dedup_lists_with_duplicates"},
 	})
 }
